@@ -55,6 +55,33 @@ impl NumSpec {
             Dual2::try_new(self.v, self.name_strings(uni), self.g.clone(), half).expect("spec builds")
         }
     }
+    /// the same first-order number realised through the public `clone_from` with a gradient array whose memory
+    /// order is the reverse of its logical order (negative stride)
+    pub fn dual_nonstd(&self, uni: &[String]) -> Dual {
+        use ndarray::{Array1, Axis};
+        use rateslib::dual::Gradient1;
+        let base = self.dual(uni);
+        let mut rev: Vec<f64> = base.dual().to_vec();
+        rev.reverse();
+        let mut arr = Array1::from(rev);
+        arr.invert_axis(Axis(0));
+        Dual::clone_from(&base, self.v, arr)
+    }
+    /// second order: negative-stride gradient and a column-major (Fortran order) second-derivative array
+    pub fn dual2_nonstd(&self, uni: &[String]) -> Dual2 {
+        use ndarray::{Array1, Array2, Axis};
+        use rateslib::dual::{Gradient1, Gradient2};
+        let base = self.dual2(uni);
+        let n = base.dual().len();
+        let mut rev: Vec<f64> = base.dual().to_vec();
+        rev.reverse();
+        let mut g = Array1::from(rev);
+        g.invert_axis(Axis(0));
+        let h = base.dual2();
+        let ht = Array2::from_shape_fn((n, n), |(i, j)| h[[j, i]]);
+        let hf = ht.reversed_axes(); // logical content h, column-major memory
+        Dual2::clone_from(&base, self.v, g, hf)
+    }
     pub fn number(&self, uni: &[String], order: u8) -> Number {
         match order {
             0 => Number::F64(self.v),
